@@ -149,7 +149,10 @@ class _HyperVolume:
                 hvol = qPrevDimIndex.volume[dimIndex] + qPrevDimIndex.area[dimIndex] * (qCargo[dimIndex] - qPrevDimIndex.cargo[dimIndex])
             else:
                 qArea[0] = 1
-                qArea[1:dimIndex+1] = [qArea[i] * -qCargo[i] for i in range(dimIndex)]
+                # cumulative product, as in the C version: area[i+1] is the
+                # measure of the box of q projected on the first i+1 dimensions
+                for i in range(dimIndex):
+                    qArea[i+1] = qArea[i] * -qCargo[i]
             q.volume[dimIndex] = hvol
             if q.ignore >= dimIndex:
                 qArea[dimIndex] = qPrevDimIndex.area[dimIndex]
@@ -217,7 +220,12 @@ class _MultiList:
             return str(self.cargo)
 
         def __lt__(self, other):
-            return all(self.cargo < other.cargo)
+            # Only used to break ties when sorting by one dimension. The
+            # order must be the same total order in every dimension, and
+            # a point must come after the points that weakly dominate it,
+            # otherwise a point marked as dominated (ignore) can be swept
+            # before the point that dominates it.
+            return tuple(self.cargo) < tuple(other.cargo)
 
     def __init__(self, numberLists):
         """Constructor.
